@@ -8,7 +8,7 @@ def run(ctx):
     vlib.stage_specs(wd)
     drv = vlib.build_harness()
     for cfg in (["MC_JpegLossless_q.cfg"] if ctx.quick else ["MC_JpegLossless_q.cfg", "MC_JpegLossless_t.cfg", "MC_JpegLossless_tp3.cfg", "MC_JpegLossless_t3.cfg"]):
-        ctx.mc("MC_JpegLossless", cfg, timeout=3000)
+        ctx.mc("MC_JpegLossless", cfg, timeout=3000 if ctx.quick else 14400)
     # reverse direction: conformant streams from the reference encoder machine (seeded simulation)
     nsim = 250 if ctx.quick else 3000
     scn, r = vlib.gen_scenarios(wd, "JllGen", "JllGen.cfg", workers=1, simulate="num=%d" % nsim, timeout=1500,
@@ -26,7 +26,7 @@ def run(ctx):
     out = vlib.run_driver(drv, args, env=ctx.env())
     stats = dict(kv.split("=") for kv in out.strip().split()[1:])
     shards = vlib.shard_trace(trace, wd, vlib.NCPU, max_bytes=6 << 20)
-    val = vlib.validate(wd, "JllTrace", shards, timeout=3000)
+    val = vlib.validate(wd, "JllTrace", shards, timeout=3000 if ctx.quick else 14400)
     steps = sum(int(i.split("=")[1]) for i in val["infos"] if i.startswith("steps="))
     classes, samples = set(), []
     with open(trace) as f:
